@@ -10,8 +10,8 @@ CLAIMS["C01"] = dict(
     technique="Lean 4 induction over event/transition lists (fold = sum) + model/code correspondence")
 CLAIMS["C03"] = dict(
     text="Proved in Lean (Mathlib HasDerivAt): the symbolic differentiator used by the model is the true derivative of every expression of the rate grammar "
-         "away from singularities (hasDerivAt_diff, defined_diff), and the Jacobian / gradient / second-derivative / gradient-Jacobian objects hold exactly those "
-         "derivatives at the documented positions (row e*nS+i, k*nS+i layouts) for every number of states and parameters; transitionJacobian/Mean/Var equal Cao et al. (7),(8a),(8b). "
+         "away from singularities (hasDerivAt_diff, defined_diff), and the Jacobian / gradient / second-derivative / gradient-Jacobian / parameter-parameter (grad_grad) objects hold exactly those "
+         "derivatives at the documented positions (row e*nS+i, k*nS+i, i*nP+j layouts) for every number of states and parameters; transitionJacobian/Mean/Var equal Cao et al. (7),(8a),(8b). "
          "sympy's diff and the compiled evaluators are tied to the verified differentiator on every generated model of every run (symbolic exact-point comparison + numeric), "
          "with a Lean-independent 50-digit finite-difference oracle for the failing-input search.",
     note="Trusted: Lean kernel + Mathlib; harness generator/printer/interpreter. Modelled rather than verified: sympy.diff, Matrix.jacobian, lambdify/autowrap (translation-validated per model). "
@@ -156,23 +156,30 @@ CLAIMS["C13"] = dict(
     technique="Lean 4: index arithmetic (omega/simp) for layouts, HasDerivAt product rule over finite sums for the block Jacobians, decide for the "
               "counterexample + model/code correspondence + finite-difference oracle")
 CLAIMS["C20"] = dict(
-    text="Proved in Lean for every number of observations, observed states and free parameters: sens_to_jtj returns "
-         "jtj[a][b] = sum_i sum_j w_ij^2 S_ija S_ijb, which is symmetric and positive semi-definite (Mathlib Matrix.PosSemidef). Proved: what the coded "
-         "forward-forward right-hand side computes (J.X_ab + sum_kl d2f/dx_k dx_l S_ka S_lb), that the TRUE second-order equation (total derivative of "
-         "J.S_a + G_a in theta_b) has three more groups of terms, that the two agree exactly when those vanish, and a counterexample (f = theta*x) showing "
-         "the code omits them. Proved: the Hessian assembly as coded has the wrong sign on its second-order term (counterexample) and is the derivative "
-         "of gradient only when the second-order sensitivities of the observed states vanish; with the proposed one-line repair it is the derivative of "
-         "gradient given second-order sensitivities. Per run, on SIR/SEIR/SIR_norm and random bounded models: jtj vs the sum of outer products of "
-         "finite-difference sensitivities of reference solutions, symmetry, eigenvalues; hessian vs central differences of the reference gradient - it must "
-         "agree on models without mixed state-parameter second derivatives and otherwise equal the value the Lean model of the code predicts "
-         "(known finding C20-hessian-mixed-terms); any other discrepancy is a violation.",
+    text="PARTIAL - assumed: integrating the first- and second-order sensitivity systems yields the first and second derivatives of the solution "
+         "in the parameters (variational-equation theorem, not in Mathlib; hypotheses hy, hs of hessian_is_second_derivative_partial) and scipy's integrator "
+         "is accurate. Proved in Lean for every number of observations, observed states, states and parameters: sens_to_jtj returns "
+         "jtj[a][b] = sum_i sum_j w_ij^2 S_ija S_ijb, which is symmetric and positive semi-definite (Mathlib Matrix.PosSemidef); "
+         "eval_forwardforward (mirrored line by line, including grad_jacobian.dot(S).reshape(nP,nS,nP).transpose(1,0,2), + transpose(0,2,1), "
+         "+ grad_grad) computes, in row i*nP+a and column b, exactly the TRUE second-order sensitivity right-hand side "
+         "J.X_ab + sum_kl d2f_i/dx_k dx_l S_ka S_lb + sum_k d2f_i/dx_k dtheta_b S_ka + sum_k d2f_i/dx_k dtheta_a S_kb + d2f_i/dtheta_a dtheta_b "
+         "(ff_rhs_is_true), which is the total derivative of the first-order right-hand side J.S_a + G_a in theta_b "
+         "(ffTrue_is_total_derivative_of_sens_rhs; C03 proves the derivative objects, grad_grad included); ode_and_forwardforward puts it in the "
+         "documented positions; given second-order sensitivities, entry (a,b) of hessian is the derivative in the b-th target parameter of component a of "
+         "gradient for the weighted square loss, for every selection and order of observed states and target parameters. History theorems: the right-hand "
+         "side as found lacked the three parameter groups (ff_rhs_asFound_counterexample), the assembly as found had the wrong sign (hessian_asFound_sign_counterexample). "
+         "Per run, on SIR/SEIR/SIR_norm and random bounded models (parameter x state, parameter x parameter and squared-parameter rates tagged): jtj vs the sum of "
+         "outer products of finite-difference sensitivities of reference solutions, symmetry, eigenvalues; hessian vs central differences of the reference gradient "
+         "(any difference is a violation); ode_and_forwardforward pointwise vs the Lean model fed with the evaluators' values and vs an independent second-order "
+         "system whose derivatives are taken in the harness from get_ode_eqn().",
     note="Assumed (as in C13): integrating a sensitivity system yields the derivative of the solution; scipy integrators within tolerance; finite-difference "
-         "Hessian of the reference cost accurate to ~1e-6 relative (comparisons at 1e-3). hessian(theta) is NOT claimed to equal the second derivatives of the "
-         "cost on models with mixed terms: recorded finding, suppressed only when the observed value matches the model-predicted one. Defects found: sign of the "
-         "second-order term (proposed_fixes/C20-hessian-second-order-sign.diff), per-observation weight vector for one observed state raises "
-         "(proposed_fixes/C20-weight-vector-single-state.diff); order-related failures depend on the C07 index-order repair (signatures *:sens-index-order).",
-    technique="Lean 4: finite-sum algebra, Matrix.posSemidef_conjTranspose_mul_self, HasDerivAt product rule, decide counterexamples + model/code "
-              "correspondence + finite-difference oracle + known-finding matching by model-predicted value")
+         "Hessian of the reference cost accurate to ~1e-6 relative (comparisons at 1e-3). Defects found and repaired in /repo: sign / weight of the second-order term "
+         "(0f0d14a), per-observation weight vector for one observed state (62436c6), missing mixed state-parameter and parameter-parameter second derivatives in the "
+         "forward-forward system (proposed_fixes/C20-hessian-mixed-terms.diff: new evaluator grad_grad; was known finding C20-hessian-mixed-terms, now a fix; a regression "
+         "is reported as VIOLATION with signature hessian:missing-mixed-terms / forwardforward:rhs-not-second-order-equation); order-related failures were the C07 "
+         "index-order repair (signatures *:sens-index-order). Not claimed: ode_and_forwardforward_jacobian is only the block-diagonal approximation the code documents.",
+    technique="Lean 4: finite-sum algebra and reshape/transpose index arithmetic, Matrix.posSemidef_conjTranspose_mul_self, HasDerivAt product rule, decide for the "
+              "history counterexamples + model/code correspondence + finite-difference oracle + independent symbolic second-order system")
 CLAIMS["C06"] = dict(
     text="PARTIAL - assumed: scipy's integrator returns the ODE solution at the observation times within tolerance (C02 'rows are the flow' + solver accuracy), "
          "and the per-entry kernels are C14's. Proved in Lean for every number of observations n, observed states p and states of the model: "
@@ -215,7 +222,7 @@ CLAIMS["C08"] = dict(
          "provided every mutator trips the flags, the param_list/state_list setters refresh _sp, and the evaluator is in the canary's list "
          "(never_stale; never_stale_source for the source as modelled). For the tree as found the partial theorem (bad mutators only before "
          "the first evaluation) and concrete stale histories (add_ode after ode; parameter declared after a compile) are proved. "
-         "The model is tied to the code on every run: random histories on the real SimulateOde, all 11 evaluators observed after every step "
+         "The model is tied to the code on every run: random histories on the real SimulateOde, all 12 evaluators (grad_grad included) observed after every step "
          "against a freshly constructed model (direct oracle) and against the version the Lean driver predicts.",
     note="The Lean model (Canary.sourceCfg) describes the tree WITH proposed_fixes/C08-add-ode-trip.diff and C08-decl-setters-refresh-sp.diff applied; "
          "until they are applied ./check C08 reports a VIOLATION on /repo (add_ode, late parameter / state declarations). "
